@@ -35,7 +35,7 @@ RULE = ('case = (state, area, function) with its perturbed twins. non-trivial = 
 ASSUMPTIONS = ['visibility read off the observation: a view cell is visible iff it is not Hidden']
 EXHAUSTIVE_NOTE = 'all opacity patterns (agent cell transparent) of 3x3 and 4x3 views with every single-cell flip, x 2 functions (thorough: 3x5 too)'
 REQUIRED = {'quick': {'ni.pairs': 20000, 'chain.checked': 5000, 'monotone.pairs': 3000, 'patterns': 2000,
-                      'stochastic.checked': 1000, 'stochastic.extreme_outcomes': 100, 'stochastic.hidden_by_chance': 50, 'agent_cell.checked': 5000,
+                      'stochastic.checked': 1000, 'walled_worlds.states': 40, 'stochastic.extreme_outcomes': 100, 'stochastic.hidden_by_chance': 50, 'agent_cell.checked': 5000,
                       'ni.outside_view': 500, 'ni.hidden_in_view': 5000, 'history_states.compared': 200, 'views.large': 4, 'door_pairs.observations': 500}}
 OCCLUDING = ['partially_occluded', 'raytracing']
 N8 = [(-1, -1), (-1, 0), (-1, 1), (0, -1), (0, 1), (1, -1), (1, 0), (1, 1)]
@@ -342,6 +342,26 @@ def large_views(ctx, fns):
             ctx.hit('views.large')
 
 
+def walled_worlds(ctx, fns, n):
+    """the shipped 7x7 view (and a 5x9 one) over worlds of walls and floor at densities around 0.3 - many partially lit
+    corners and diagonal gaps -, every hidden cell of the view replaced in turn (not a sample of them)"""
+    for k in range(n):
+        if ctx.out_of_time(0.85):
+            break
+        rng = gen.rng_for('C06walls', ctx.seed, ctx.shard, k)
+        h, w = rng.randint(7, 10), rng.randint(7, 10)
+        state, _ = gen.rand_state(rng, [Floor, Wall], [Color.NONE], shape=(h, w), p_floor=rng.choice([0.0, 0.2, 0.4]))
+        # rand_state draws Floor with probability p_floor first and otherwise uniformly from the two types: wall density 0.3-0.5
+        area = Area((-6, 0), (-3, 3)) if k % 3 else Area((-4, 0), (-4, 4))
+        if k % 2:
+            state.agent.position = Position(h - 1, w // 2)
+            state.agent.orientation = Orientation.F
+        ctx.hit('walled_worlds.states')
+        for name in OCCLUDING:
+            if obsgen.supported(name, area):
+                analyse(ctx, state, area, name, fns[(name, area)], 0, rng, label='walled world: ')
+
+
 def run(ctx):
     from .. import custom_objects
     custom_objects.enable(curtain=True)  # user-defined object types join the generators' pool (flags, not types, must decide)
@@ -353,6 +373,7 @@ def run(ctx):
         patterns(ctx, shapes, fns)
         large_views(ctx, fns)
         door_status_pairs(ctx, fns, ctx.pick(150, 2500))
+        walled_worlds(ctx, fns, ctx.pick(60, 1500))
         for k in range(ctx.pick(250, 12000)):
             if ctx.out_of_time(0.9):
                 ctx.add('random_cases_skipped_for_time')
